@@ -272,7 +272,7 @@ static void check_value (svalue_t *v, const char *where, int depth) {
     size_t l = strlen (v->u.string);
     /* the text of an error the driver has just raised (what catch yields) is not built by an operator or efun: not judged */
     if (vw_nerrors && vw_last_error_text[0] && !strncmp (v->u.string, vw_last_error_text, 28)) break;
-    if ((long) l > S) { char key[120]; snprintf (key, sizeof key, "C04:string-longer-than-MaxStringLength"); note (key, "a string of %zu bytes exists (MaxStringLength %ld) %s", l, S, where); }
+    if ((long) l > S) { char key[120]; snprintf (key, sizeof key, "C04:string-longer-than-MaxStringLength"); note (key, "a string of %zu bytes exists (MaxStringLength %ld) %s: \"%.40s...\"", l, S, where, v->u.string); }
     break; }
   case T_ARRAY: case T_CLASS:
     if (v->type == T_ARRAY && (long) v->u.arr->size > A) { char key[120]; snprintf (key, sizeof key, "C04:array-larger-than-MaxArraySize"); note (key, "an array of %d elements exists (MaxArraySize %ld) %s", v->u.arr->size, A, where); }
